@@ -237,6 +237,27 @@ def check(ctx):
             tr += t
         good, hit = unreachable_without(b, okb, removed_edges=tr)
         ctx.require(R5, bool(tr) and good and bool(errb), "%s:%s" % (b.file, b.line), "%s: Ok only after a name matched, otherwise Err (%s)" % (key.rsplit("::", 1)[1], what), [key, "not-found-error"])
+    # the recursive expansion of a group keeps every failure: each do_get_hook call inside do_get_hook is tested and its error edge
+    # cannot reach Ok; inside a closure its Result must be handed to an error-preserving adaptor (map/try_*), never to
+    # flat_map/filter_map/flatten/ok(), which iterate a Result as "zero or one item" and drop the error
+    from .guards import body_family, closure_users
+    gh = prog.must_body(CFG + "::do_get_hook")
+    okg, errg, fwdg = result_return_kinds(gh)
+    rec = [(fb, c) for fb in body_family(prog, CFG + "::do_get_hook") for c in fb.calls_to(CFG + "::do_get_hook")]
+    ctx.floor(R5, "recursive do_get_hook calls (group expansion)", len(rec), 1)
+    for fb, c in rec:
+        if fb is gh:
+            errs = [tg for t in try_edges(gh, [c.dest["l"]]) for tg in t["err"]]
+            good = bool(errs) and all(not (set(okg) & gh.reachable([e])) for e in errs)
+            ctx.require(R5, good, c.where(), "an unresolved name inside a group fails the whole lookup", [CFG + "::do_get_hook", "nested-error-dropped"])
+        else:
+            users = closure_users(gh, fb.key)
+            names = [u.name.rsplit("::", 1)[-1] for u in users]
+            good = bool(users) and all(n in ("map", "try_for_each", "try_fold", "and_then", "map_while") for n in names)
+            # the mapped results must then be collected into a Result (tested by `?`/match): approximated by requiring no lossy adaptor at all
+            lossy = [x.name for x in gh.calls if x.name.rsplit("::", 1)[-1] in ("flat_map", "filter_map", "flatten", "ok", "unwrap_or_default", "unwrap_or", "unwrap_or_else")]
+            ctx.require(R5, good and not lossy, c.where(), "an unresolved name inside a group fails the whole lookup (closure result given to %s%s)" % (names, ", lossy: %s" % lossy if lossy else ""),
+                        [CFG + "::do_get_hook", "nested-error-dropped"])
     lookups = [("acmed::config::Certificate::get_endpoint", "endpoint"), ("acmed::config::Certificate::get_hooks", "hooks"), ("acmed::config::Account::get_hooks", "account hooks"),
                ("acmed::config::Certificate::get_crt_name_format", "name format"), ("acmed::config::Certificate::get_renew_delay", "renew delay")]
     okb, errb, fwd = result_return_kinds(nb)
